@@ -82,6 +82,17 @@ func runStoresHistory() int {
 				continue
 			}
 			must(os.MkdirAll(d, 0755))
+			if cont == "linkFileRoot" {
+				// a real store directory whose certificate file is a symbolic link onto a file kept elsewhere (in a tsa store, outside)
+				target := filepath.Join(root, "elsewhere-files", typ+"-"+name+".pem")
+				if mix(*flagSeed, c.ID, "lnkf"+ref)%2 == 1 {
+					target = filepath.Join(root, "truststore", "x509", "tsa", "unlisted-"+name, "cert.pem")
+				}
+				must(os.MkdirAll(filepath.Dir(target), 0755))
+				must(os.WriteFile(target, pem.EncodeToMemory(&pem.Block{Type: "CERTIFICATE", Bytes: signerChain.Root().Raw}), 0644))
+				must(os.Symlink(target, filepath.Join(d, "cert.pem")))
+				continue
+			}
 			if cont == "empty" {
 				continue // the store directory exists and holds nothing
 			}
